@@ -5,7 +5,7 @@
 # in /verif/seeded/<id>/tests_confirmed.json, remove the worktree.
 set -u
 id=$1
-DST=/verif/seeded/$id
+DST=/verif/${SEED_BASE:-seeded}/$id
 WT=/tmp/seedconf/wt_$id
 mkdir -p /tmp/seedconf
 git -C /repo worktree add -q --detach $WT HEAD || exit 3
